@@ -11,10 +11,26 @@ open Anko.Pratt
 def levelOf (o : String) : Nat := (Gen.precLevels.findIdx? (fun l => l.2.contains o)).getD 0
 def rightAt (l : Nat) : Bool := ((Gen.precLevels[l]?).map (·.1)).getD false
 
-/-- the binding powers the grammar file gives every operator spelling -/
+theorem levelOf_lt (o : String) : levelOf o < Gen.precLevels.length ∨ levelOf o = 0 := by
+  unfold levelOf
+  cases h : Gen.precLevels.findIdx? (fun l => l.2.contains o) with
+  | none => right; rfl
+  | some i =>
+    left
+    have := List.findIdx?_eq_some_iff_getElem.mp h
+    exact this.1
+
+/-- the declarations end with the pseudo-token of the prefix operators: nothing binds tighter -/
+theorem unary_is_last : levelOf "UNARY" + 1 = Gen.precLevels.length := by decide
+
+/-- the binding powers the grammar file gives every operator spelling; prefix operators
+(`%prec UNARY`) sit above every declared level, postfix forms (no declared precedence: the
+generated parser always shifts `(`, `[` and `.`) above those -/
 def genTbl : Tbl where
   lbp o := 2 * levelOf o
   rbp o := 2 * levelOf o + (if rightAt (levelOf o) then 0 else 1)
+  ubp := 2 * levelOf "UNARY" + 1
+  post := 2 * levelOf "UNARY" + 2
   assoc o := by
     by_cases h : rightAt (levelOf o) = true
     · left; simp [h]
@@ -22,5 +38,10 @@ def genTbl : Tbl where
   level o q h := by
     have : levelOf o = levelOf q := by omega
     simp [this]
+  unary_tightest o := by
+    have h1 := levelOf_lt o
+    have h2 := unary_is_last
+    omega
+  postfix_tightest := by omega
 
 end Anko.PrecTable
